@@ -11,9 +11,24 @@ def run(ctx):
                 "orientation x m in {2,3,5,10,20,50}, plus seeded random domains 1900-2199 biased to the last days of months; "
                 "non-trivial = at least two ticks; distinct by (domain, m)")
     ctx.assumptions += ["instants are projected to <<day, ms, us>> with datetime arithmetic; calendar boundaries are decided by spec/Calendar.tla"]
+    quick = ctx.tier == "quick"
     ctx.model("MCCalendar", "MCCalendar_quick.cfg", workers=core.NCPU, heap="4g", label="calendar model self-consistency (IsBoundary used by BoundaryClass)")
+    ctx.model("MCTimeTicks", "MCTimeTicks_quick.cfg" if quick else "MCTimeTicks.cfg", workers=core.NCPU, heap="4g",
+              label="operational tick method (bisect + geometric mean + range filter): ticks increasing, in domain, gap ratio <= 2, count bounds")
+    ctx.model("MCTimeTicks", "NegTimeTicks_arith.cfg", workers=4, expect_violation="CountBound",
+              label="negative self-test: choosing the step by the arithmetic mean breaks the count bound")
     recs = tc.gather(ctx, "ticks")
     tc.check(ctx, "ticks", recs, "C16_")
+    # conformance of the operational model with the observed tick lists: drift is reported, never a verdict
+    sub = [r for r in recs if not r["err"]][::(3 if quick else 1)]
+    drift, st = core.validate_records("TimeDrift", "TimeDrift.cfg", sub, per_shard=800, heap="3g")
+    ctx.states += st["distinct"]
+    ctx.transitions += st["generated"]
+    ctx.extra["operational_model_conformance"] = {"tick_lists_compared": len(sub), "explained_exactly_by_TimeTicks.tla": len(sub) - len(drift),
+                                                  "spec_drift": len(drift)}
+    if drift:
+        ctx.notes.append("spec drift: %d tick lists are not reproduced by the operational model (first: %s)"
+                         % (len(drift), json.dumps(sub[drift[0][0]])[:300]))
     ctx.evaluations += len(recs)
     ctx.nontrivial += len({json.dumps([r["dom"], r["m"]]) for r in recs if len(r["ticks"]) >= 2})
     ctx.sample([r for r in recs if 2 <= len(r["ticks"]) <= 4][0])
